@@ -131,7 +131,7 @@ func (p *Pool) start() (*worker, error) {
 		return nil, err
 	}
 	cmd := exec.Command(os.Args[0], os.Args[1:]...)
-	cmd.Env = append(os.Environ(), envWorker+"="+p.Handler, fmt.Sprintf("VERIF_WORKER_MEM_MB=%d", p.MemMB), "GOMAXPROCS=2")
+	cmd.Env = append(os.Environ(), envWorker+"="+p.Handler, fmt.Sprintf("VERIF_WORKER_MEM_MB=%d", p.MemMB), "GOMAXPROCS=1")
 	cmd.Env = append(cmd.Env, p.Env...)
 	cmd.ExtraFiles = []*os.File{tr, rw}
 	tb := &tailBuf{}
@@ -206,6 +206,17 @@ func tailOf(s string) string {
 
 // Map runs every task; onResult is called (serialised) for each and may return follow-up tasks.
 func (p *Pool) Map(tasks [][]byte, onResult func(task []byte, out []byte, crash *Crash) [][]byte) {
+	p.MapD(tasks, func(out []byte) interface{} { return out }, func(task []byte, res interface{}, crash *Crash) [][]byte {
+		var out []byte
+		if res != nil {
+			out = res.([]byte)
+		}
+		return onResult(task, out, crash)
+	})
+}
+
+// MapD is Map with a decode step that runs concurrently (outside the serialised callback).
+func (p *Pool) MapD(tasks [][]byte, decode func(out []byte) interface{}, onResult func(task []byte, res interface{}, crash *Crash) [][]byte) {
 	if p.N <= 0 {
 		p.N = 1
 	}
@@ -255,8 +266,12 @@ func (p *Pool) Map(tasks [][]byte, onResult func(task []byte, out []byte, crash 
 					w.kill()
 					w = nil
 				}
+				var dec interface{}
+				if crash == nil {
+					dec = decode(out)
+				}
 				cbmu.Lock()
-				more := onResult(t, out, crash)
+				more := onResult(t, dec, crash)
 				cbmu.Unlock()
 				mu.Lock()
 				queue = append(queue, more...)
